@@ -57,6 +57,7 @@ type Spec struct {
 	L0RetMs    int    `json:"l0_ret_ms"`
 	Verify     bool   `json:"verify_compaction"`
 	Reset      bool   `json:"reset_local_state"`
+	FaultPct    int   `json:"fault_pct,omitempty"`    // percent of the replica client calls of the main databases that fail while the operation goroutines run (0 = delays only)
 	StormRounds int   `json:"storm_rounds,omitempty"` // rounds of the 16-way same-path registration storm after the operation goroutines stopped
 	Profile    string `json:"profile,omitempty"` // "" = full operation set; "maint" = sync/checkpoint/snapshot/compact only; "ckpt-interrupt" = checkpoints, CRC64, syncs, snapshots with 0.1-3 s caller deadlines (demonstration of the interrupted-checkpoint class); neither is in the default case list
 }
@@ -246,6 +247,7 @@ type child struct {
 
 	stop        atomic.Bool
 	stopWriters atomic.Bool
+	faultsOn    atomic.Bool // injected storage faults are delivered only while the operation goroutines run
 
 	evMu sync.Mutex
 	evF  *os.File
@@ -571,6 +573,7 @@ func (c *child) mkMain(m *mainDB) *litestream.DB {
 	db.Logger = discard
 	fc := file.NewReplicaClient(m.rep)
 	px := newProxy(fc, m.arch, time.Duration(s.MaxDelayMs)*time.Millisecond, s.Seed+int64(m.idx)*31+c.seedN.Add(1), m.pst)
+	px.faultPct, px.faultsOn = s.FaultPct, &c.faultsOn
 	db.Replica = litestream.NewReplicaWithClient(db, px)
 	db.Replica.SyncInterval = time.Duration(s.SyncMs) * time.Millisecond
 	fc.Replica = db.Replica
@@ -926,6 +929,7 @@ func (c *child) listing(g *gctx, op string) {
 
 func (c *child) run(fin *Final) {
 	s := c.spec
+	c.faultsOn.Store(s.FaultPct > 0)
 	var wwg sync.WaitGroup
 	for w := 0; w < s.Writers; w++ {
 		m := c.mains[w%len(c.mains)]
@@ -974,6 +978,7 @@ func (c *child) run(fin *Final) {
 	fin.RunMs = time.Since(runStart).Milliseconds()
 	fin.RunCalls = c.completed.Load()
 	c.stop.Store(true)
+	c.faultsOn.Store(false) // failures stop here: the final acknowledgement runs against a healthy store
 	owg.Wait() // a call that never returns is caught by the watchdog
 	// registration storm: rounds of 16 concurrent registrations of one path under
 	// registry-lock contention, each followed by the one-instance listing check, one
@@ -1108,6 +1113,7 @@ func (c *child) run(fin *Final) {
 		px["open"] += m.pst.open.Load()
 		px["write"] += m.pst.write.Load()
 		px["delays"] += m.pst.delays.Load()
+		px["faults_injected"] += m.pst.faults.Load()
 	}
 	px["side_write"] = sideStats.write.Load()
 	fin.Proxy = px
